@@ -230,6 +230,7 @@ func Select(hasDefault bool, cases ...SelCase) int {
 	s.point(OpSelect, nil, true, false, "select")
 	if t.handoff {
 		// woken as the receiver of a rendezvous
+		s.ev(t, uint64(OpSelect)+uint64(t.hsel)<<8, cases[t.hsel].Ch, true)
 		return t.hsel
 	}
 	var ready [8]int
@@ -245,6 +246,11 @@ func Select(hasDefault bool, cases ...SelCase) int {
 		if !hasDefault {
 			panic("vrt: select granted with nothing ready")
 		}
+		// the poll observed every channel of the statement
+		for _, c := range cases {
+			s.ev(t, uint64(OpSelect), c.Ch, false)
+		}
+		s.evDep(t, unsafe.Pointer(&gCtx))
 		return -1
 	}
 	k := 0
@@ -252,6 +258,10 @@ func Select(hasDefault bool, cases ...SelCase) int {
 		k = s.decide(n, false, nil)
 	}
 	i := ready[k]
+	s.ev(t, uint64(OpSelect)+uint64(i)<<8, cases[i].Ch, true)
+	if _, c, _ := chanState(cases[i].Ch); c == 0 {
+		s.evDep(t, unsafe.Pointer(&gCtx))
+	}
 	if cases[i].Send {
 		s.startHandoff(cases[i].Ch, t)
 	}
